@@ -16,7 +16,10 @@ Resolution:
   (`var x = x+1` reads the outer `x`);
 * `scope_end_forgets`: leaving a block removes exactly the locals declared in it and does
   not renumber the others;
-* `unknown_at_toplevel`: a compile error.
+* `unknown_at_toplevel`: a compile error;
+* `redeclare_in_scope_is_error`, `declare_fresh`: a second declaration of a name in the scope
+  being parsed is a compile error, however many inner blocks were opened and closed in
+  between; a declaration of a name that only enclosing scopes have is accepted.
 
 State flow:
 * `read_local`, `assign_local` (C01): a read pushes the slot's value; an assignment updates
@@ -131,6 +134,109 @@ theorem unknown_at_toplevel (f : Nat) (canAssign : Bool) (p : PState) (h0 : p.de
     ∧ ((prefixRule .identRef canAssign (f + 1)).run p).1 = .bad := by
   simp [prefixRule, hn, h0, error, errorAt, bind, StateT.bind, StateT.run, get, getThe, MonadStateOf.get, StateT.get,
     modify, modifyGet, MonadStateOf.modifyGet, StateT.modifyGet, pure, StateT.pure]
+
+/-! ## declarations -/
+
+/-- The locals of the scope being parsed: the newest ones down to (not including) the first
+that was initialised in an enclosing scope. -/
+def scopeSeg (p : PState) : List Local :=
+  p.locals.takeWhile (fun l => !(l.depth != -1 && l.depth < (p.depth : Int)))
+
+def redeclMsg : Bytes := str "variable with this name already present in this scope"
+
+/-- what the re-declaration loop of `declVar` does to the state -/
+def redeclFold (name : Bytes) (ls : List Local) (p : PState) : PState :=
+  ls.foldl (fun p l => if l.name == name then ((error redeclMsg : PM Unit).run p).2 else p) p
+
+theorem forIn_redecl (name : Bytes) : ∀ (ls : List Local) (p : PState),
+    (forIn ls PUnit.unit (fun l _ => do
+        if l.name == name then error redeclMsg
+        pure (ForInStep.yield PUnit.unit)) : PM PUnit).run p = (PUnit.unit, redeclFold name ls p) := by
+  intro ls
+  induction ls with
+  | nil => intro p; rfl
+  | cons l ls ih =>
+    intro p
+    rw [List.forIn_cons]
+    by_cases h : (l.name == name) = true
+    · simp only [h, if_true, redeclFold, List.foldl_cons]
+      exact ih _
+    · simp only [h, redeclFold, List.foldl_cons]
+      exact ih _
+
+theorem declVar_run (p : PState) :
+    declVar.run p = (addLocal p.prev.val).run (redeclFold p.prev.val (scopeSeg p) p) := by
+  have := forIn_redecl p.prev.val (scopeSeg p) p
+  unfold declVar
+  simp only [redeclMsg, scopeSeg] at this ⊢
+  simp only [bind, StateT.bind, StateT.run, get, getThe, MonadStateOf.get, StateT.get, pure, StateT.pure] at this ⊢
+  rw [this]
+
+theorem error_run (msg : Bytes) (p : PState) :
+    ((error msg : PM Unit).run p).2.hadError = true ∧ ((error msg : PM Unit).run p).2.locals = p.locals
+    ∧ ((error msg : PM Unit).run p).2.log ≠ [] := by
+  simp [error, errorAt, bind, StateT.bind, StateT.run, get, getThe, MonadStateOf.get, StateT.get,
+    modify, modifyGet, MonadStateOf.modifyGet, StateT.modifyGet, pure, StateT.pure]
+
+theorem redeclFold_spec (name : Bytes) : ∀ (ls : List Local) (p : PState),
+    (redeclFold name ls p).locals = p.locals
+    ∧ (p.hadError = true → (redeclFold name ls p).hadError = true)
+    ∧ ((∀ l ∈ ls, l.name ≠ name) → redeclFold name ls p = p)
+    ∧ ((∃ l ∈ ls, l.name = name) → (redeclFold name ls p).hadError = true) := by
+  intro ls
+  induction ls with
+  | nil => intro p; simp [redeclFold]
+  | cons l ls ih =>
+    intro p
+    unfold redeclFold
+    simp only [List.foldl_cons]
+    by_cases h : (l.name == name) = true
+    · simp only [h, if_true]
+      obtain ⟨e1, e2, e3⟩ := error_run redeclMsg p
+      obtain ⟨i1, i2, _, _⟩ := ih ((error redeclMsg : PM Unit).run p).2
+      refine ⟨by rw [← e2]; exact i1, fun _ => i2 e1, fun hn => ?_, fun _ => i2 e1⟩
+      exact absurd (by simpa using h) (hn l (List.mem_cons_self ..))
+    · simp only [h]
+      obtain ⟨i1, i2, i3, i4⟩ := ih p
+      refine ⟨i1, i2, fun hn => i3 (fun x hx => hn x (List.mem_cons_of_mem _ hx)), ?_⟩
+      rintro ⟨x, hx, hxn⟩
+      rcases List.mem_cons.mp hx with rfl | hx
+      · exact absurd (by simpa using hxn) h
+      · exact i4 ⟨x, hx, hxn⟩
+
+theorem addLocal_keeps_error (name : Bytes) (p : PState) (h : p.hadError = true) :
+    ((addLocal name).run p).2.hadError = true := by
+  unfold addLocal
+  by_cases hl : (p.locals.length == localsMaxSize) = true
+  · simp [hl, error, errorAt, bind, StateT.bind, StateT.run, get, getThe, MonadStateOf.get, StateT.get,
+      modify, modifyGet, MonadStateOf.modifyGet, StateT.modifyGet, pure, StateT.pure]
+  · simp [hl, h, bind, StateT.bind, StateT.run, get, getThe, MonadStateOf.get, StateT.get,
+      modify, modifyGet, MonadStateOf.modifyGet, StateT.modifyGet, pure, StateT.pure]
+
+/-- **Re-declaring a name in the same scope is a compile error**: if the scope being parsed
+already has a local of that name — whatever inner blocks opened and closed in between, and
+whether or not they shadowed it — `declVar` reports an error. -/
+theorem redeclare_in_scope_is_error (p : PState) (h : ∃ l ∈ scopeSeg p, l.name = p.prev.val) :
+    (declVar.run p).2.hadError = true := by
+  rw [declVar_run]
+  exact addLocal_keeps_error _ _ ((redeclFold_spec _ _ p).2.2.2 h)
+
+/-- **Declaring a name the current scope does not have is fine**, also when an enclosing scope
+has it (shadowing): the local is added, not yet initialised, and nothing is reported. -/
+theorem declare_fresh (p : PState) (h : ∀ l ∈ scopeSeg p, l.name ≠ p.prev.val)
+    (hroom : p.locals.length ≠ localsMaxSize) :
+    (declVar.run p).2 = { p with locals := { name := p.prev.val, depth := -1 } :: p.locals,
+                                 localMax := max p.localMax (p.locals.length + 1) } := by
+  rw [declVar_run, (redeclFold_spec _ _ p).2.2.1 h]
+  have : (p.locals.length == localsMaxSize) = false := by simpa using hroom
+  simp [addLocal, this, bind, StateT.bind, StateT.run, get, getThe, MonadStateOf.get, StateT.get,
+    modify, modifyGet, MonadStateOf.modifyGet, StateT.modifyGet, pure, StateT.pure]
+
+/-- The scope being parsed, spelled out on the situation `var a; def b { var a … }; var a`: back
+at toplevel the first `a` is in scope again (a second `var a` is an error), while inside the block
+the toplevel `a` is not part of the scope (the inner `var a` shadows it). -/
+example : (scopeSeg { rest := [], depth := 0, locals := [{ name := [97], depth := 0 }] }).map (·.name) = [[97]]
+    ∧ (scopeSeg { rest := [], depth := 1, locals := [{ name := [97], depth := 0 }] }).map (·.name) = [] := by decide
 
 /-! ## state flow -/
 
